@@ -1,29 +1,658 @@
+// C06 -- value ordering is a total preorder; sort and merge honour it at any
+// memory limit.
+//
+//  1. Order.tla (code -> spec): the REAL comparator (expr.NewValueCompareFn, all
+//     four asc/desc x nullsMax/nullsMin configurations), the real compare()
+//     function (function object and compiled query) and the real bulk sorter
+//     (Comparator.SortStable, native int64 path included) are recorded over a
+//     curated universe of boundary values and handed to TLC, which decides the
+//     total-preorder axioms over ALL triples and the bulk-sort agreement, and
+//     prints every broken instance; each is re-run on the real code and reported.
+//  2. SortSpill.tla (spec -> code): TLC proves output = stable sort for all small
+//     inputs, batchings and memory limits and prints every behaviour; each is
+//     replayed on the real `sort` operator (compiled query, exact batches,
+//     sort.MemMaxBytes lowered, spill hook observed) with payloads drawn from the
+//     universe; oracle: permutation, sorted under the real comparator, stable,
+//     nulls placement, identical across memory limits.
+//  3. MergeOp.tla (spec -> code): TLC proves the merge of sorted parents sorted
+//     and complete for all small inputs and all heap tie choices and prints the
+//     behaviours; the real merge.Op is run on every input and its batch sequence
+//     must be one of the spec's behaviours; oracle: sorted, complete, per-parent
+//     order kept.
 package main
 
 import (
+	"context"
+	"encoding/json"
 	"fmt"
 	"math/rand"
 	"os"
+	"sort"
+	"strings"
 	"time"
 
 	zed "github.com/brimdata/super"
+	"github.com/brimdata/super/zbuf"
+	"github.com/brimdata/super/zson"
 
 	"verif/core"
+	"verif/flowh"
 )
 
 func main() { core.Main("C06", "model_checking", run) }
 
+const sigF1 = "preorder-not-transitive:int~float~int:above-2^53"
+
+// pullerBatch is zbuf.PullerBatchValues for this process (PB of MergeOp.tla).
+const pullerBatch = 2
+
 func run(c *core.Ctx) error {
+	// Must happen before any zbuf puller batch is allocated (they are pooled by capacity).
+	zbuf.PullerBatchValues = pullerBatch
 	u := newUniverse(zed.NewContext())
+	c.Trust("TLC 1.8.0 and the CommunityModules Json/SequencesExt operators; the harness' rendering of the recorded relation; zson formatting (values are compared by their ZSON text); spill.MergeSort.Spill hook for counting runs")
+	c.Assume(fmt.Sprintf("axioms are decided over a fixed universe of %d boundary values (ints/uints around 2^53, 2^63 and the type limits, duration/time, float16/32/64 incl. NaN, +-Inf, +-0, strings, bytes, ip, net, type values, nulls of each type, missing, errors, arrays, sets, maps, records, unions, named, enums); sort/merge inputs are exhaustive only within the TLC bounds stated in the cfg files, larger inputs are seeded samples", len(u.vals)))
+	c.Rule("cases = (a) every ordered triple of the universe under each of the 4 comparator configurations, decided by TLC on the relation recorded from the real comparator (one evaluation per recorded pair/sample); (b) every behaviour printed by TLC from SortSpill.tla (all key sequences x batchings x memory limits within the bounds, plus seeded larger inputs), replayed on the real sort operator with a seeded sort spec (1-3 keys, asc/desc, -r, -nulls first) and payload; (c) every input of MergeOp.tla replayed on the real merge.Op. Distinct = distinct (input, batching, limit, sort spec, key family); non-trivial = sort case that spilled or has equal keys, merge case with >= 2 parents and >= 2 values, bulk sample, comparator pair")
+	if c.Replay != "" {
+		return replay(c, u)
+	}
+	// VERIF_C06_PHASES (development aid): comma-separated subset of order,sort,merge.
+	phases := os.Getenv("VERIF_C06_PHASES")
+	on := func(p string) bool { return phases == "" || strings.Contains(phases, p) }
 	t0 := time.Now()
-	r := recordRelation(u)
-	if err := r.recordCompareFn(c); err != nil {
+	rel := recordRelation(u)
+	if on("order") {
+		var err error
+		if rel, err = orderPhase(c, u); err != nil {
+			return err
+		}
+		c.Logf("order phase done in %.1fs", time.Since(t0).Seconds())
+	}
+	if on("sort") {
+		t0 = time.Now()
+		if err := sortPhase(c, u, rel); err != nil {
+			return err
+		}
+		c.Logf("sort phase done in %.1fs", time.Since(t0).Seconds())
+	}
+	if on("merge") {
+		t0 = time.Now()
+		if err := mergePhase(c, u); err != nil {
+			return err
+		}
+		c.Logf("merge phase done in %.1fs", time.Since(t0).Seconds())
+	}
+	if phases != "" {
+		c.Inconclusive("partial run (VERIF_C06_PHASES=%s)", phases)
+	}
+	return nil
+}
+
+// ------------------------------------------------------------------ order
+
+type tripleWitness struct {
+	Kind  string `json:"kind"` // "triple"
+	Axiom string `json:"axiom"`
+	Cfg   string `json:"cfg"`
+	A     string `json:"a"`
+	B     string `json:"b"`
+	C     string `json:"c,omitempty"`
+	AB    int    `json:"cmp_ab"`
+	BA    int    `json:"cmp_ba"`
+	BC    int    `json:"cmp_bc"`
+	AC    int    `json:"cmp_ac"`
+}
+
+type bulkWitness struct {
+	Kind   string     `json:"kind"` // "bulk"
+	Sample bulkSample `json:"sample"`
+	Keys   []string   `json:"key_values"`
+	Keys2  []string   `json:"key2_values,omitempty"`
+	What   string     `json:"what"`
+}
+
+func orderPhase(c *core.Ctx, u *universe) (*orderRel, error) {
+	rel := recordRelation(u)
+	if err := rel.recordCompareFn(c); err != nil {
+		return nil, err
+	}
+	perCfg := 60
+	if !c.Quick() {
+		perCfg = 600
+	}
+	rel.genSamples(rand.New(rand.NewSource(c.Seed+6)), perCfg)
+	n := len(u.vals)
+	for i := 0; i < n; i++ {
+		for j := 0; j < n; j++ {
+			c.Eval(fmt.Sprintf("pair|%d|%d", i, j), true)
+		}
+	}
+	for i, s := range rel.samples {
+		c.Eval(fmt.Sprintf("bulk|%d|%s|%s|%v|%v", i, s.Cfg, s.Cfg2, s.Keys, s.Keys2), true)
+	}
+	c.Set("universe_size", n)
+	c.Set("bulk_samples", len(rel.samples))
+	cfg := "Order.quick.cfg"
+	if !c.Quick() {
+		cfg = "Order.thorough.cfg"
+	}
+	res, err := c.RunTLC(core.TLCRun{Module: "Order", Cfg: cfg, Files: rel.dataFiles(), Workers: 16, Coverage: true, Timeout: 15 * time.Minute})
+	if err != nil {
+		return nil, err
+	}
+	for _, a := range res.ZeroCov {
+		if a == "PickA" || a == "PickS" || a == "Scan" {
+			c.Inconclusive("Order.tla: action %s was never taken (vacuous run)", a)
+		}
+	}
+	bad, err := parseBad(res.Prints)
+	if err != nil {
+		return nil, err
+	}
+	if res.Status != "ok" && res.Status != "invariant" {
+		c.Inconclusive("TLC reports %s %s on Order.tla", res.Status, res.Violated)
+		return rel, nil
+	}
+	c.Logf("Order.tla: %s, %d distinct states, %d broken axiom instances printed", res.Status, res.Distinct, len(bad))
+	newCount := 0
+	perSig := map[string]int{}
+	f1sort := false
+	for _, b := range bad {
+		if b.Cfg == "bulk" {
+			newCount++
+			reportBulk(c, u, rel, b)
+			continue
+		}
+		if b.A < 1 || b.A > n || b.B < 1 || b.B > n || b.C < 0 || b.C > n {
+			return nil, fmt.Errorf("TLC printed an out-of-range token: %+v", b)
+		}
+		va, vb := u.vals[b.A-1], u.vals[b.B-1]
+		cmp := realCmp(b.Cfg)
+		w := tripleWitness{Kind: "triple", Axiom: b.Axiom, Cfg: b.Cfg, A: va.ZSON, B: vb.ZSON,
+			AB: sign(cmp(va.val, vb.val)), BA: sign(cmp(vb.val, va.val))}
+		kinds := va.Kind + "," + vb.Kind
+		var vc *uval
+		if b.C > 0 {
+			vc = u.vals[b.C-1]
+			w.C = vc.ZSON
+			w.BC = sign(cmp(vb.val, vc.val))
+			w.AC = sign(cmp(va.val, vc.val))
+			kinds += "," + vc.Kind
+		}
+		switch b.Class {
+		case "drift":
+			c.Drift("Order.tla %s: %s vs %s under %s", b.Axiom, va.ZSON, vb.ZSON, b.Cfg)
+			continue
+		case "F1":
+			// confirm on the real code before reporting
+			if !(w.AB == 0 && w.BC == 0 && w.AC != 0) {
+				c.Inconclusive("TLC classified %+v as F1 but the real comparator does not confirm it", w)
+				continue
+			}
+			if perSig[sigF1] < 40 {
+				c.Violate(sigF1, fmt.Sprintf("compare(%s, %s) = 0 and compare(%s, %s) = 0 but compare(%s, %s) = %d: numbers of different kinds are compared through float64, so the induced equivalence is not transitive above 2^53", va.ZSON, vb.ZSON, vb.ZSON, vc.ZSON, va.ZSON, vc.ZSON, w.AC), w)
+			}
+			perSig[sigF1]++
+			if !f1sort {
+				f1sort = true
+				sortLevelF1(c, u, va, vb, vc)
+			}
+			continue
+		}
+		newCount++
+		sig := fmt.Sprintf("preorder:%s:%s:%s", b.Axiom, b.Cfg, kinds)
+		if !confirmAxiom(b.Axiom, w) {
+			c.Inconclusive("TLC reports %s broken at %+v but re-evaluating the real comparator does not confirm it", b.Axiom, w)
+			continue
+		}
+		if perSig[sig] < 5 {
+			c.Violate(sig, describeAxiom(b.Axiom, w), w)
+		}
+		perSig[sig]++
+	}
+	c.Set("order_axiom_instances_broken_known", perSig[sigF1])
+	c.Set("order_axiom_instances_broken_new", newCount)
+	if res.Status == "invariant" && newCount == 0 {
+		c.Inconclusive("TLC reports invariant %s violated on Order.tla but printed no new broken instance", res.Violated)
+	}
+	// the families used for sort/merge payloads must be free of broken triples
+	for _, b := range bad {
+		if b.Cfg == "bulk" || b.C == 0 {
+			continue
+		}
+		for _, fam := range familyNames {
+			if inFamily(fam, u.vals[b.A-1]) && inFamily(fam, u.vals[b.B-1]) && inFamily(fam, u.vals[b.C-1]) {
+				c.Note(fmt.Sprintf("a broken triple lies inside key family %s: %s %s %s", fam, u.vals[b.A-1].ZSON, u.vals[b.B-1].ZSON, u.vals[b.C-1].ZSON))
+			}
+		}
+	}
+	c.Sample(map[string]any{"kind": "relation", "universe": n, "example_row": u.vals[13].ZSON, "cmp_asc_nullsmax_first_20": rel.cmp["am"][13][:20]})
+	if len(rel.samples) > 3 {
+		s := rel.samples[3]
+		c.Sample(map[string]any{"kind": "bulk", "cfg": s.Cfg, "cfg2": s.Cfg2, "keys": tokensZSON(u, s.Keys), "keys2": tokensZSON(u, s.Keys2), "real_SortStable_output_positions": s.Out})
+	}
+	return rel, nil
+}
+
+func tokensZSON(u *universe, toks []int) []string {
+	var out []string
+	for _, t := range toks {
+		out = append(out, u.vals[t-1].ZSON)
+	}
+	return out
+}
+
+func confirmAxiom(axiom string, w tripleWitness) bool {
+	switch axiom {
+	case "refl":
+		return w.AB != 0
+	case "antisym":
+		return w.AB != -w.BA
+	case "transleq":
+		return w.AB <= 0 && w.BC <= 0 && w.AC > 0
+	case "transeq":
+		return w.AB == 0 && w.BC == 0 && w.AC != 0
+	}
+	return true // nulls, desc, fn: cross-configuration facts described by describeAxiom
+}
+
+func describeAxiom(axiom string, w tripleWitness) string {
+	switch axiom {
+	case "refl":
+		return fmt.Sprintf("compare(%s, %s) = %d under %s: not reflexive", w.A, w.A, w.AB, w.Cfg)
+	case "antisym":
+		return fmt.Sprintf("compare(%s, %s) = %d but compare(%s, %s) = %d under %s: not antisymmetric", w.A, w.B, w.AB, w.B, w.A, w.BA, w.Cfg)
+	case "transleq":
+		return fmt.Sprintf("%s <= %s and %s <= %s but compare(%s, %s) = %d under %s: <= is not transitive", w.A, w.B, w.B, w.C, w.A, w.C, w.AC, w.Cfg)
+	case "transeq":
+		return fmt.Sprintf("%s ~ %s and %s ~ %s but compare(%s, %s) = %d under %s: the equivalence is not transitive", w.A, w.B, w.B, w.C, w.A, w.C, w.AC, w.Cfg)
+	case "nulls":
+		return fmt.Sprintf("nulls placement broken under %s: compare(%s, %s) = %d", w.Cfg, w.A, w.B, w.AB)
+	case "desc":
+		return fmt.Sprintf("descending comparison is not the reverse of ascending: under %s compare(%s, %s) = %d", w.Cfg, w.A, w.B, w.AB)
+	case "fn":
+		return fmt.Sprintf("compare() disagrees with the sort comparator under %s on (%s, %s); comparator says %d", w.Cfg, w.A, w.B, w.AB)
+	}
+	return axiom
+}
+
+// checkBulk evaluates a bulk sample's output against the real comparator.
+func checkBulk(u *universe, s *bulkSample) string {
+	n := len(s.Keys)
+	if len(s.Out) != n {
+		return fmt.Sprintf("perm: %d in, %d out", n, len(s.Out))
+	}
+	seen := map[int]bool{}
+	for _, p := range s.Out {
+		if p < 1 || p > n || seen[p] {
+			return "perm: not a permutation"
+		}
+		seen[p] = true
+	}
+	c1, c2 := realCmp(s.Cfg), realCmp(s.Cfg2)
+	cmp := func(p, q int) int {
+		if r := sign(c1(u.vals[s.Keys[p-1]-1].val, u.vals[s.Keys[q-1]-1].val)); r != 0 || len(s.Keys2) == 0 {
+			return r
+		}
+		return sign(c2(u.vals[s.Keys2[p-1]-1].val, u.vals[s.Keys2[q-1]-1].val))
+	}
+	for i := 0; i < n; i++ {
+		for j := i + 1; j < n; j++ {
+			switch r := cmp(s.Out[i], s.Out[j]); {
+			case r > 0:
+				return fmt.Sprintf("order: input position %d (%s) is placed before position %d (%s)", s.Out[i], u.vals[s.Keys[s.Out[i]-1]-1].ZSON, s.Out[j], u.vals[s.Keys[s.Out[j]-1]-1].ZSON)
+			case r == 0 && s.Out[i] > s.Out[j]:
+				return fmt.Sprintf("stable: equal keys at input positions %d and %d leave in reverse order", s.Out[j], s.Out[i])
+			}
+		}
+	}
+	return ""
+}
+
+func reportBulk(c *core.Ctx, u *universe, rel *orderRel, b badLine) {
+	if b.A < 1 || b.A > len(rel.samples) {
+		c.Inconclusive("TLC printed an unknown bulk sample %d", b.A)
+		return
+	}
+	s := rel.samples[b.A-1]
+	rel.runBulk(&s) // re-run the real SortStable
+	what := checkBulk(u, &s)
+	if what == "" {
+		c.Inconclusive("TLC reports bulk sample %d broken (%s) but re-running SortStable does not confirm it", b.A, b.Axiom)
+		return
+	}
+	native := "native"
+	for _, k := range s.Keys {
+		if !u.vals[k-1].IntK {
+			native = "generic"
+		}
+	}
+	sig := fmt.Sprintf("bulk-sort-%s:%s:%dkey:%s", b.Axiom, s.Cfg, 1+min(len(s.Keys2), 1), native)
+	c.Violate(sig, fmt.Sprintf("Comparator.SortStable (%s path, config %s) disagrees with Comparator.Compare: %s", native, s.Cfg, what),
+		bulkWitness{Kind: "bulk", Sample: s, Keys: tokensZSON(u, s.Keys), Keys2: tokensZSON(u, s.Keys2), What: what})
+}
+
+// sortLevelF1 shows the known finding at the operator level: no output of
+// `sort this` over [a, b, c] can be both sorted and stable.
+func sortLevelF1(c *core.Ctx, u *universe, va, vb, vc *uval) {
+	in := []zed.Value{va.val, vb.val, vc.val}
+	res := flowh.RunReaders(context.Background(), "sort this", flowh.Opts{Zctx: u.zctx}, u.zctx, &batchReader{batches: [][]zed.Value{in}})
+	if res.Err != nil || len(res.Rows) != 3 {
+		c.Inconclusive("sort-level reproduction of F1 failed to run: %v", res.Err)
+		return
+	}
+	cmp := realCmp("am")
+	byZ := map[string]int{va.ZSON: 0, vb.ZSON: 1, vc.ZSON: 2}
+	bad := ""
+	for i := 0; i < 3 && bad == ""; i++ {
+		for j := i + 1; j < 3; j++ {
+			pi, iok := byZ[res.Rows[i]]
+			pj, jok := byZ[res.Rows[j]]
+			if !iok || !jok {
+				c.Inconclusive("sort-level reproduction of F1: unexpected output %v", res.Rows)
+				return
+			}
+			r := sign(cmp(in[pi], in[pj]))
+			if r > 0 || (r == 0 && pi > pj) {
+				bad = fmt.Sprintf("%s before %s", res.Rows[i], res.Rows[j])
+				break
+			}
+		}
+	}
+	c.Eval("sort-f1|"+va.ZSON+vb.ZSON+vc.ZSON, true)
+	if bad != "" {
+		c.Add("f1_reproduced_at_sort_level", 1)
+		c.Violate(sigF1, fmt.Sprintf("`sort this` over %s %s %s yields %v: %s although it does not compare lower (no order of these three values is both sorted and stable)", va.ZSON, vb.ZSON, vc.ZSON, res.Rows, bad),
+			sortWitness{Kind: "sort", Program: "sort this", Records: []string{va.ZSON, vb.ZSON, vc.ZSON}, Sizes: []int{3}, MemMax: 1 << 30, Got: res.Rows})
+	}
+}
+
+// ------------------------------------------------------------------- sort
+
+func sortPhase(c *core.Ctx, u *universe, rel *orderRel) error {
+	e := newSortEnv(c, u, rel)
+	K := 3
+	cfg := "SortSpill.quick.cfg"
+	nSampled, maxN, maxB := 150, 12, 6
+	if !c.Quick() {
+		cfg = "SortSpill.thorough.cfg"
+		nSampled, maxN, maxB = 1500, 16, 8
+	}
+	inputs := sampledInputs(rand.New(rand.NewSource(c.Seed+66)), nSampled, maxN, maxB, K)
+	ij, _ := json.Marshal(inputs)
+	res := c.MustHold(core.TLCRun{Module: "SortSpill", Cfg: cfg, Files: map[string][]byte{"ss_inputs.json": ij}, Workers: 16, Coverage: true, Timeout: 15 * time.Minute})
+	if res == nil {
+		return nil
+	}
+	for _, a := range res.ZeroCov {
+		switch a {
+		case "Consume", "Spill", "FinishMem", "StartMerge", "MergeStep", "MergeDone":
+			c.Inconclusive("SortSpill.tla: action %s was never taken (vacuous run)", a)
+		}
+	}
+	// sensitivity: without the ordinal tie-break the invariants must fail
+	mut, err := c.RunTLC(core.TLCRun{Module: "SortSpill", Cfg: "SortSpill.mut.cfg", Files: map[string][]byte{"ss_inputs.json": []byte("[]")}, Workers: 4, Timeout: 5 * time.Minute})
+	if err != nil {
 		return err
 	}
-	r.genSamples(rand.New(rand.NewSource(c.Seed)), 60)
-	fmt.Println("universe", len(u.vals), "samples", len(r.samples), time.Since(t0), c.Count("compare_fn_compiled_differs"))
-	for k, v := range r.dataFiles() {
-		os.WriteFile("/var/tmp/c06/"+k, v, 0o644)
+	if mut.Status != "invariant" {
+		c.Inconclusive("SortSpill.mut.cfg (merge without ordinal tie-break) should violate Final/OutputSorted but TLC says %s: the invariants are vacuous", mut.Status)
+	}
+	c.Set("sortspill_mutant_spec_rejected_by", mut.Violated)
+	cases, err := parseSortCases(res.Prints)
+	if err != nil {
+		return err
+	}
+	c.Logf("SortSpill.tla: %d distinct states, %d behaviours exported (invariants hold); mutant spec rejected (%s)", res.Distinct, len(cases), mut.Violated)
+	c.Set("sort_behaviours_from_tlc", len(cases))
+	if len(cases) == 0 {
+		c.Inconclusive("SortSpill.tla exported no behaviours")
+		return nil
+	}
+	groups := map[string][]sortCase{}
+	var order []string
+	for _, sc := range cases {
+		k := intsKey(sc.Keys) + "|" + intsKey(sc.Sizes)
+		if _, ok := groups[k]; !ok {
+			order = append(order, k)
+		}
+		groups[k] = append(groups[k], sc)
+	}
+	sort.Strings(order)
+	for i, k := range order {
+		e.checkGroup(groups[k], K)
+		if i%2000 == 1999 {
+			c.Logf("sort replay: %d/%d groups, %d runs, %d with spills", i+1, len(order), c.Count("sort_runs_replayed"), c.Count("sort_cases_with_spill"))
+		}
+	}
+	c.Logf("sort replay: %d groups, %d runs on the real operator, %d with spills (%d with >= 2 runs), %d spill runs seen by the hook",
+		len(order), c.Count("sort_runs_replayed"), c.Count("sort_cases_with_spill"), c.Count("sort_cases_with_merge_of_2plus_runs"), c.Count("sort_spill_runs_observed"))
+	if c.Count("sort_cases_with_merge_of_2plus_runs") == 0 {
+		c.Inconclusive("no replayed sort case merged two or more spilled runs (vacuous)")
+	}
+	c.Set("exhaustive", true)
+	return nil
+}
+
+// ------------------------------------------------------------------ merge
+
+func mergePhase(c *core.Ctx, u *universe) error {
+	e := &mergeEnv{c: c, u: u}
+	K := 3
+	cfg := "MergeOp.quick.cfg"
+	if !c.Quick() {
+		cfg = "MergeOp.thorough.cfg"
+	}
+	res := c.MustHold(core.TLCRun{Module: "MergeOp", Cfg: cfg, Workers: 16, Coverage: true, Timeout: 15 * time.Minute})
+	if res == nil {
+		return nil
+	}
+	for _, a := range res.ZeroCov {
+		switch a {
+		case "AddParent", "Start", "PullEOS", "Pull", "ReadStep", "ReadEnd":
+			c.Inconclusive("MergeOp.tla: action %s was never taken (vacuous run)", a)
+		}
+	}
+	mut, err := c.RunTLC(core.TLCRun{Module: "MergeOp", Cfg: "MergeOp.mut.cfg", Workers: 4, Timeout: 5 * time.Minute})
+	if err != nil {
+		return err
+	}
+	if mut.Status != "invariant" {
+		c.Inconclusive("MergeOp.mut.cfg (probe the first instead of the last buffered value) should violate OutSorted/NoOvertake but TLC says %s: the invariants are vacuous", mut.Status)
+	}
+	c.Set("mergeop_mutant_spec_rejected_by", mut.Violated)
+	behs, err := parseMergeBehaviours(res.Prints)
+	if err != nil {
+		return err
+	}
+	allowed := map[string]map[string]bool{}
+	inputs := map[string]mergeInput{}
+	var order []string
+	for _, b := range behs {
+		pj, _ := json.Marshal(b.Parents)
+		out := b.Out
+		if out == nil {
+			out = [][][2]int{}
+		}
+		oj, _ := json.Marshal(out)
+		k := string(pj)
+		if allowed[k] == nil {
+			allowed[k] = map[string]bool{}
+			inputs[k] = b.Parents
+			order = append(order, k)
+		}
+		allowed[k][string(oj)] = true
+	}
+	sort.Strings(order)
+	c.Logf("MergeOp.tla: %d distinct states, %d behaviours over %d inputs (invariants hold); mutant spec rejected (%s)", res.Distinct, len(behs), len(order), mut.Violated)
+	c.Set("merge_behaviours_from_tlc", len(behs))
+	c.Set("merge_inputs_from_tlc", len(order))
+	if len(order) == 0 {
+		c.Inconclusive("MergeOp.tla exported no behaviours")
+		return nil
+	}
+	for _, k := range order {
+		e.checkInput(inputs[k], allowed[k], K, pullerBatch)
+	}
+	// the compiled path: fork ... | merge k
+	rng := rand.New(rand.NewSource(c.Seed + 606))
+	nc := 60
+	if !c.Quick() {
+		nc = 600
+	}
+	for i := 0; i < nc; i++ {
+		in := inputs[order[rng.Intn(len(order))]]
+		if len(in) < 2 {
+			continue
+		}
+		e.compiledMerge(in, K)
+	}
+	c.Logf("merge replay: %d inputs on the real merge.Op (%d with cross-parent ties), %d compiled fork|merge runs", c.Count("merge_runs_replayed"), c.Count("merge_cases_with_cross_parent_ties"), c.Count("merge_compiled_runs"))
+	return nil
+}
+
+// ----------------------------------------------------------------- replay
+
+func replay(c *core.Ctx, u *universe) error {
+	var raw map[string]json.RawMessage
+	sig, err := c.ReplayWitness(&raw)
+	if err != nil {
+		return err
+	}
+	var kind string
+	json.Unmarshal(raw["kind"], &kind)
+	parse := func(s string) zed.Value {
+		v, err := zson.ParseValue(u.zctx, s)
+		if err != nil {
+			panic(fmt.Sprintf("cannot parse witness value %s: %v", s, err))
+		}
+		return v.Copy()
+	}
+	switch kind {
+	case "triple":
+		var w tripleWitness
+		c.ReplayWitness(&w)
+		cmp := realCmp(w.Cfg)
+		a, b := parse(w.A), parse(w.B)
+		n := tripleWitness{Kind: "triple", Axiom: w.Axiom, Cfg: w.Cfg, A: w.A, B: w.B, C: w.C, AB: sign(cmp(a, b)), BA: sign(cmp(b, a))}
+		if w.C != "" {
+			cv := parse(w.C)
+			n.BC, n.AC = sign(cmp(b, cv)), sign(cmp(a, cv))
+		}
+		fmt.Printf("cfg=%s cmp(a,b)=%d cmp(b,a)=%d cmp(b,c)=%d cmp(a,c)=%d  a=%s b=%s c=%s\n", n.Cfg, n.AB, n.BA, n.BC, n.AC, n.A, n.B, n.C)
+		bad := confirmAxiom(w.Axiom, n)
+		if w.Axiom == "nulls" || w.Axiom == "desc" || w.Axiom == "fn" {
+			bad = n.AB == w.AB // still the same (wrong) answer
+		}
+		if bad {
+			c.Violate(sig, describeAxiom(w.Axiom, n), n)
+		}
+	case "bulk":
+		var w bulkWitness
+		c.ReplayWitness(&w)
+		// rebuild the sample over a private universe made of the witness values
+		pu := &universe{zctx: u.zctx}
+		s := w.Sample
+		s.Keys, s.Keys2 = nil, nil
+		for _, z := range w.Keys {
+			s.Keys = append(s.Keys, pu.add("x", parse(z)).Idx)
+		}
+		for _, z := range w.Keys2 {
+			s.Keys2 = append(s.Keys2, pu.add("x", parse(z)).Idx)
+		}
+		rel := &orderRel{u: pu}
+		rel.runBulk(&s)
+		what := checkBulk(pu, &s)
+		fmt.Printf("SortStable output positions %v: %s\n", s.Out, what)
+		if what != "" {
+			c.Violate(sig, what, w)
+		}
+	case "sort":
+		var w sortWitness
+		c.ReplayWitness(&w)
+		e := newSortEnv(c, u, &orderRel{u: u, cmp: map[string][][]int{"am": {}}})
+		// a fresh context, as a query has
+		zctx := zed.NewContext()
+		var recs []zed.Value
+		for _, r := range w.Records {
+			v, err := zson.ParseValue(zctx, r)
+			if err != nil {
+				return err
+			}
+			recs = append(recs, v.Copy())
+		}
+		rows, ids, spills, err := e.runSort(zctx, w.Program, recs, w.Sizes, w.MemMax)
+		fmt.Printf("%s  mem=%d spills=%v err=%v\n  -> %v\n", w.Program, w.MemMax, spills, err, rows)
+		if err != nil {
+			c.Violate(sig, err.Error(), w)
+			return nil
+		}
+		if w.Program == "sort this" {
+			va, vb, vc := &uval{ZSON: w.Records[0], val: recs[0]}, &uval{ZSON: w.Records[1], val: recs[1]}, &uval{ZSON: w.Records[2], val: recs[2]}
+			sortLevelF1(c, u, va, vb, vc)
+			return nil
+		}
+		if clause, what := e.oracle(zctx, w.Spec, recs, w.Records, rows, ids); clause != "" {
+			c.Violate(sig, what, w)
+			return nil
+		}
+		ref := w.MemRef
+		if ref == 0 {
+			ref = 1 << 30
+		}
+		rows2, _, _, err := e.runSort(zctx, w.Program, recs, w.Sizes, ref)
+		if err == nil && !flowh.Equal(rows, rows2) {
+			c.Violate(sig, fmt.Sprintf("result with sort.MemMaxBytes=%d differs from the result with %d", w.MemMax, ref), w)
+		}
+	case "merge":
+		var w mergeWitness
+		c.ReplayWitness(&w)
+		var parents [][][]zed.Value
+		for _, p := range w.Parents {
+			var pb [][]zed.Value
+			for _, b := range p {
+				var vals []zed.Value
+				for _, r := range b {
+					vals = append(vals, parse(r))
+				}
+				pb = append(pb, vals)
+			}
+			parents = append(parents, pb)
+		}
+		cmp := mergeComparator(u.zctx, w.Desc)
+		got, err := runMerge(u.zctx, cmp, parents)
+		var flat []zed.Value
+		var rows []string
+		for _, b := range got {
+			for _, v := range b {
+				flat = append(flat, v)
+				rows = append(rows, zson.FormatValue(v))
+			}
+		}
+		fmt.Printf("merge desc=%v err=%v -> %v\n", w.Desc, err, rows)
+		var all []string
+		for _, p := range w.Parents {
+			for _, b := range p {
+				all = append(all, b...)
+			}
+		}
+		bad := err != nil || !flowh.Equal(flowh.Multiset(rows), flowh.Multiset(all))
+		for i := 0; i+1 < len(flat); i++ {
+			if cmp.Compare(flat[i], flat[i+1]) > 0 {
+				bad = true
+			}
+		}
+		if bad {
+			c.Violate(sig, "replayed: merge output is not a sorted permutation of the parents", w)
+		}
+	case "cmerge":
+		var w struct {
+			Parents mergeInput `json:"parents"`
+		}
+		c.ReplayWitness(&w)
+		(&mergeEnv{c: c, u: u}).compiledMerge(w.Parents, 3)
+	default:
+		return fmt.Errorf("unknown witness kind %q", kind)
 	}
 	return nil
 }
